@@ -236,6 +236,165 @@ def run_items(R, items, deadline, certify):
         judge(R, it, r, certs.get(i), ans.get(i))
 
 
+# ---- stage-level correspondence: the maximum-weight closed subset on ARBITRARY rotation posets ---------------------------
+# Random marriage instances rarely produce the poset shapes that separate a correct min-cut reading from a wrong one
+# (N-shaped posets, long chains, weights that make the residual reverse edges matter), so the stage is also driven directly.
+@guard
+def impl_closed(case):
+    from socialchoicekit.deterministic_matching import Irving
+    from socialchoicekit.profile_utils import IntegerValuationProfile
+    import numpy as np
+    out = []
+    irv = Irving()
+    for it in case["items"]:
+        r = len(it["succs"])
+        P_prime = {i: list(it["succs"][i]) for i in range(r)}
+        rots = [[(a, b) for a, b in rho] for rho in it["rots"]]
+        V1 = IntegerValuationProfile.of(np.array(it["V1"], dtype=np.int64))
+        V2 = IntegerValuationProfile.of(np.array(it["V2"], dtype=np.int64))
+        try:
+            C = irv.find_maximum_weight_closed_subset(P_prime, rots, V1, V2)
+            ws = [int(Irving.rotation_weight(rho, V1, V2)) for rho in rots]
+            out.append({"C": sorted(int(x) for x in C), "ws": ws})
+        except Exception as e:  # noqa
+            out.append({"exc": type(e).__name__, "msg": str(e)[:200]})
+    return {"results": out}
+
+
+def gen_poset(R):
+    """a random DAG on r nodes (edges i -> j mean `i precedes j`), each node a synthetic 2-pair rotation on its own two men and
+    women whose `rotation_weight` is the chosen integer"""
+    r = R.rng.randint(1, 9)
+    shape = R.rng.choice(["random", "random", "chain", "N", "layers"])
+    order = list(range(r))
+    R.rng.shuffle(order)           # node names are not topologically sorted
+    succs = [[] for _ in range(r)]
+    def edge(a, b):
+        if order[b] not in succs[order[a]]:
+            succs[order[a]].append(order[b])
+    if shape == "chain":
+        for i in range(r - 1):
+            edge(i, i + 1)
+    elif shape == "N":
+        for i in range(0, r - 1, 2):
+            edge(i, i + 1)
+            if i + 3 < r:
+                edge(i + 2, i + 1)
+                if R.rng.random() < 0.5:
+                    edge(i, i + 3)
+    elif shape == "layers":
+        half = max(1, r // 2)
+        for i in range(half):
+            for j in range(half, r):
+                if R.rng.random() < 0.5:
+                    edge(i, j)
+    else:
+        dens = R.rng.choice([0.15, 0.3, 0.6])
+        for i in range(r):
+            for j in range(i + 1, r):
+                if R.rng.random() < dens:
+                    edge(i, j)
+    wkind = R.rng.choice(["small", "small", "pm1", "wide", "zeroes"])
+    ws = [R.rng.randint(-4, 4) if wkind == "small" else R.rng.choice([-1, 1]) if wkind == "pm1" else R.rng.randint(-40, 40) if wkind == "wide"
+          else R.rng.choice([0, 0, -2, 3]) for _ in range(r)]
+    n = 2 * r
+    V1 = [[0] * n for _ in range(n)]
+    V2 = [[0] * n for _ in range(n)]
+    rots = []
+    for i in range(r):
+        a, b = 2 * i, 2 * i + 1
+        rots.append([[a, a], [b, b]])
+        # weight = V1[a][a]-V1[a][b] + V1[b][b]-V1[b][a] + V2[a][a]-V2[a][b] + V2[b][b]-V2[b][a]; spread the chosen weight over the terms
+        x = R.rng.randint(-3, 3)
+        V1[a][a] = ws[i] + x
+        V2[b][a] = x
+        y = R.rng.randint(0, 2)
+        V1[b][b] = y
+        V2[a][b] = y
+    return {"succs": succs, "rots": rots, "V1": V1, "V2": V2, "ws": ws, "shape": shape}
+
+
+def best_closed(succs, ws):
+    """brute force: maximum total weight of a subset closed under predecessors"""
+    r = len(ws)
+    pred = [[i for i in range(r) if j in succs[i]] for j in range(r)]
+    best = 0
+    for mask in range(1 << r):
+        ok = True
+        tot = 0
+        for j in range(r):
+            if mask >> j & 1:
+                tot += ws[j]
+                for i in pred[j]:
+                    if not mask >> i & 1:
+                        ok = False
+                        break
+                if not ok:
+                    break
+        if ok and tot > best:
+            best = tot
+    return best
+
+
+def closed_line(it):
+    r = len(it["succs"])
+    n = len(it["V1"])
+    toks = ["irv_closedsub", str(r)]
+    for sc in it["succs"]:
+        toks += [str(len(sc))] + [str(x) for x in sc]
+    for rho in it["rots"]:
+        toks += [str(len(rho))] + [str(x) for p in rho for x in p]
+    toks += [str(n)] + [str(v) for row in it["V1"] for v in row] + [str(v) for row in it["V2"] for v in row]
+    return " ".join(toks)
+
+
+ENTRY_CLOSED = "socialchoicekit.deterministic_matching.Irving.find_maximum_weight_closed_subset"
+
+
+def run_closed(R, items):
+    cases = [{"items": ch} for ch in chunks(items, 50)]
+    results = pmap("c03", "impl_closed", cases, deadline=120.0)
+    flat = []
+    for case, res in zip(cases, results):
+        flat += res["results"] if "results" in res else [dict(res)] * len(case["items"])
+    answers = lean_query([closed_line(it) for it in items])
+    for it, r, a in zip(items, flat, answers):
+        judge_closed(R, it, r, a)
+
+
+@safe_judge
+def judge_closed(R, it, r, a):
+    inp = {k: it[k] for k in ("succs", "rots", "V1", "V2")}
+    R.count("closed_subset_stage:" + it.get("shape", "replay"))
+    if "C" not in r:
+        R.violation("property_violation", "the closed-subset stage terminates without raising", ENTRY_CLOSED, inp, impl_output=r,
+                    oracle="exception / no answer on a valid rotation poset")
+        return
+    ws, succs = r["ws"], it["succs"]
+    rr = len(ws)
+    C = r["C"]
+    pred_closed = all(i in C for j in C for i in range(rr) if j in succs[i])
+    val = sum(ws[j] for j in C)
+    best = best_closed(succs, ws)
+    if not pred_closed or val != best:
+        R.violation("property_violation", "the chosen rotation set is closed under predecessors and has maximum total weight (so the final matching is "
+                    "stable and welfare-maximal)", ENTRY_CLOSED, inp, impl_output={"chosen": C, "weights": ws, "value": val},
+                    oracle={"closed": pred_closed, "maximum_weight_of_a_closed_subset": best})
+        return
+    t = a.split()
+    exp = None
+    if t[0] == "ok":
+        mw = [int(x) for x in t[1:1 + rr]]
+        k = int(t[1 + rr])
+        exp = {"ws": mw, "C": [int(x) for x in t[2 + rr:2 + rr + k]]}
+    if exp is None or exp["ws"] != ws or exp["C"] != C:
+        R.corr_break("find_maximum_weight_closed_subset = IrvingAlgo.closedSubset on an arbitrary poset (rotation weights and chosen set)",
+                     ENTRY_CLOSED, inp, {"ws": ws, "C": C}, a)
+        return
+    nontriv = rr >= 3 and any(w > 0 for w in ws) and any(w < 0 for w in ws) and any(succs)
+    R.case(nontrivial_key=("closed", json.dumps(inp)) if nontriv else None, sample=None)
+
+
 def corpus():
     path = os.path.join(VERIF, "corpus", "C03.jsonl")
     return [json.loads(l) for l in open(path) if l.strip()] if os.path.exists(path) else []
@@ -246,13 +405,16 @@ def run(R):
               "without ties, tie-heavy 0..3, free integers incl. negatives, ordinal profiles omitted with distinct valuations); Latin-square block "
               "compositions and random-block compositions (n up to 25, 8-19 rotations); thorough adds ALL profile pairs for n<=3. Optimality: "
               "brute force over permutations (n<=6), per-block optimum for compositions, and a z3-found LP-dual certificate checked by the Lean "
-              "smCertOk. Non-trivial = >=2 stable matchings or a block composition.")
+              "smCertOk. In addition the maximum-weight-closed-subset stage is driven directly on random rotation posets (chains, N shapes, "
+              "layered and random DAGs, r<=9 nodes, node names not topologically sorted): the chosen set must be closed, of maximum weight (brute "
+              "force over all subsets) and equal to the Lean model's. Non-trivial = >=2 stable matchings or a block composition.")
     R.assumptions = ["Irving's rotation algorithm is not modelled; each output is certified (kernel-checked soundness of smCertOk)",
                      "z3 only finds certificates; they are re-checked by the Lean checker"]
     items = [dict(c, tag="corpus") for c in corpus()]
     items += gen_random(R, 900 if R.thorough else 150, 9 if R.thorough else 7)
     items += gen_blocks(R, 120 if R.thorough else 24, True)
     items += gen_blocks(R, 120 if R.thorough else 24, False)
+    run_closed(R, [gen_poset(R) for _ in range(6000 if R.thorough else 400)])
     every = 1 if R.thorough else 2
     run_items(R, items, 60.0, lambda i, it: i % every == 0 or "offs" in it or it.get("tag") == "corpus")
     if R.thorough:
@@ -265,5 +427,8 @@ def run(R):
 def replay(R, rep):
     inp = rep["input"]
     cfg = rep.get("config", {})
+    if rep.get("entry_point") == ENTRY_CLOSED:
+        run_closed(R, [dict(inp, shape="replay")])
+        return
     run_items(R, [dict(inp, zero=cfg.get("zero_indexed", True), omit=cfg.get("ordinal_profiles_omitted", False), float_ranks=cfg.get("float_ranks", False),
                        tag="replay")], 60.0, lambda i, it: True)
